@@ -41,6 +41,13 @@ struct Obj : public tlx::ReferenceCounter {
         // "never while a handle remains": seen from inside the destructor (a destructor may look at, or
         // copy, a handle variable -- the "current object" pattern), no handle variable points here any more
         if (g_dying) g_dying->dying(this);
+        // "destroyed ... at the moment that number drops to zero": a successor this object is the only owner of
+        // is gone as soon as the handle to it has let go, not some time later
+        if (g_dying && next.get() && next->unique()) {
+            const int cid = next->id;
+            next.reset();
+            if (sim::rt_cell_get(uint32_t(CELL_BASE + cid)) != 2) sim::rt_cell_add(CELL_ERR + 3, 1);
+        }
         payload = -1;
     }
 };
@@ -121,6 +128,7 @@ struct History : public DyingHook {
         int last_id = int(sim::rt_cell_get(CELL_NEXT_ID));
         if (sim::rt_cell_get(CELL_ERR) != 0) { res.fail("cptr_double_destroy", "object destroyed twice after " + after); return; }
         if (!dying_msg.empty()) { res.fail("cptr_destroyed_while_owned", dying_msg + " (during " + after + ")"); return; }
+        if (sim::rt_cell_get(CELL_ERR + 3) != 0) { res.fail("cptr_not_destroyed", "an object was still alive after its last handle (inside a dying object) had let go, during " + after); return; }
         std::vector<int> cnt(size_t(last_id) + 1, 0);
         auto see = [&](const Obj* p, size_t use, bool uniq, const char* what, int idx) {
             if (!p) return;
